@@ -441,11 +441,23 @@ func c03bCiEq(a, b []byte) bool { return string(c03bLower(a)) == string(c03bLowe
 
 // witness class of an unsound skip, from the inputs only: needles = the phrase, or the match words, or the compared value
 func c03bClass(needles [][]byte, val []byte, ci, negate, onlyUnrot bool) string {
+	return c03bClassOp(needles, nil, false, val, ci, negate, onlyUnrot)
+}
+
+// orWords: the match words of the filter when its operator is Or (the record matcher then asks for ANY of them)
+func c03bClassOp(needles [][]byte, words [][]byte, isOr bool, val []byte, ci, negate, onlyUnrot bool) string {
 	switch {
 	case negate && onlyUnrot:
 		return "negated-unrotated"
 	case negate:
 		return "negated"
+	}
+	if isOr {
+		for _, w := range words {
+			if len(strings.Trim(string(w), " ")) == 0 {
+				return "or-filter-word-without-bloom-key" // an empty / blank word: matches at record level, has no key
+			}
+		}
 	}
 	for _, n := range needles {
 		if len(n) == 0 {
@@ -645,7 +657,7 @@ func execC03bMf(a []string) Result {
 			bitsS += c03bBit(matched)
 			inAnswer := (star || i == 0) && matched != neg
 			if inAnswer && (!passR || !passU) && len(res.Fails) == 0 && !anyStar {
-				cls := c03bClass(mfNeedles, v, ci, neg, passR && !passU)
+				cls := c03bClassOp(mfNeedles, w, a[0] == "or", v, ci, neg, passR && !passU)
 				res.Fails = append(res.Fails, PropFail{Sig: "bloom-skip-unsound/" + cls,
 					Msg: fmt.Sprintf("stored value %q satisfies the hand-built MatchFilter (words %q phrase %q op=%s ci=%v negate=%v) at record level, but the block is skipped by the bloom check (kept: rotated=%v open=%v; %s)",
 						v, w, p, a[0], ci, neg, passR, passU, c03bProbeStr(keys, orig, wild, bop))})
@@ -1028,6 +1040,10 @@ func c03bGenMf(r *rand.Rand) string {
 			ow = append(ow, []byte(o))
 		}
 		if !ci || r.Intn(2) == 0 {
+			ow = nil
+		}
+		if r.Intn(8) == 0 { // a word without bloom key: empty (two spaces in a row in a multi_match phrase) or blank (a terms entry)
+			w = append(w, [][]byte{{}, []byte(" "), []byte("  ")}[r.Intn(3)])
 			ow = nil
 		}
 	}
